@@ -445,7 +445,15 @@ func checkChallenge(c *Ctx, fn *ssa.Function, keyFromFile bool, auth *ssa.Functi
 	// data: make([]byte, N) with constant N >= 32 in this function (lowered to MakeSlice, or new [N]byte + slice)
 	var ms ssa.Value
 	n := int64(0)
-	switch x := data.(type) {
+	// the buffer may be made (and filled) by a helper of this function: a fresh buffer per call all the same
+	var bufHome *ssa.Function = fn
+	bufVal := data
+	if cv := w.canon(fn, data); cv != nil && cv != throughCell(strip(data)) {
+		if ins, isIns := cv.(ssa.Instruction); isIns && ins.Parent() != fn && w.inTree(fn, ins.Parent()) && len(w.sitesIn(fn, ins.Parent())) == 1 {
+			bufVal, bufHome = cv, ins.Parent()
+		}
+	}
+	switch x := bufVal.(type) {
 	case *ssa.MakeSlice:
 		if k, ok := intConst(x.Len); ok {
 			ms, n = x, k
@@ -480,9 +488,25 @@ func checkChallenge(c *Ctx, fn *ssa.Function, keyFromFile bool, auth *ssa.Functi
 		// users of data: rand.Read, Sign, Verify only
 		var randCall *ssa.Call
 		okUsers := true
+		var users []ssa.Instruction
 		if refs := ms.Referrers(); refs != nil {
-			for _, r := range *refs {
+			users = append(users, *refs...)
+		}
+		if bufHome != fn {
+			// ... and, in this function, of the value the helper handed back
+			if dv, ok := throughCell(strip(data)).(ssa.Value); ok && dv.Referrers() != nil {
+				users = append(users, *dv.Referrers()...)
+			}
+		}
+		{
+			for _, r := range users {
 				switch x := r.(type) {
+				case *ssa.Return:
+					if bufHome != fn && x.Parent() == bufHome {
+						continue // handed to this function
+					}
+					okUsers = false
+					c.Bad("R3.challenge", name+"|no other writer of the challenge", w.Pos(r.Pos()), "the challenge buffer is returned")
 				case *ssa.Call:
 					switch {
 					case calleeName(x) == "crypto/rand.Read":
@@ -508,7 +532,7 @@ func checkChallenge(c *Ctx, fn *ssa.Function, keyFromFile bool, auth *ssa.Functi
 		if randCall == nil {
 			c.Bad("R3.challenge", name+"|filled by crypto/rand", w.Pos(ms.Pos()), "the challenge buffer is never filled by crypto/rand.Read (math/rand, a constant or a package-level buffer is predictable)")
 		} else {
-			okDom := InstrDominates(randCall, sign) && InstrDominates(randCall, ver)
+			okDom := w.DeepDominates(fn, randCall, sign) && w.DeepDominates(fn, randCall, ver)
 			errv := extractOf(randCall, 1)
 			isNil, known := w.Facts(fn).KnownNil(sign.Block(), errv)
 			c.Check(okDom && errv != nil && known && isNil, "R3.challenge", name+"|filled by crypto/rand", w.Pos(randCall.Pos()), "crypto/rand.Read(data) dominates Sign and Verify with must-fact err == nil", "crypto/rand.Read does not dominate the signature request with its error checked")
